@@ -505,3 +505,6 @@ A(M("c12e-stale-pairs", "C12", C, "        entries = [\n            Entry(entry.
 A(M("c12e-adjacent-pair", "C12", C, "            if stem.strand5p.first == stem.strand5p.last:\n                to_unpair", "            if stem.strand5p.first == stem.strand5p.last and stem.strand3p.first - stem.strand5p.first > 1:\n                to_unpair", "isolated-select"))
 # a size cap is outside what the evaluated classes reach: the fact rule must not claim it, the pinned rule decides
 A(M("c16e-size-cap", "C16", C, "            for permutation in itertools.permutations(component):\n", "            for permutation in (itertools.permutations(component) if len(component) < 7 else [tuple(component)]):\n", ["greedy-perms", "enumeration-fact"]))
+# a consumer outside common.py edits a cached answer in place (C16-g of round 3 is the stored instance; these are the twins)
+A(M("c16e-consumer-sorts-list", ["C16", "C12"], "tertiary.py", "        for dot_bracket in self.bpseq.all_dot_brackets:\n", "        alternatives = self.bpseq.all_dot_brackets\n        alternatives.sort(key=lambda db: db.structure)\n        for dot_bracket in alternatives:\n", ["list-handed-out", "foreign-write"]))
+A(M("c16e-consumer-copy-silent", ["C16", "C12", "C14"], "tertiary.py", "        for dot_bracket in self.bpseq.all_dot_brackets:\n", "        alternatives = list(self.bpseq.all_dot_brackets)\n        alternatives.reverse()\n        alternatives.reverse()\n        for dot_bracket in alternatives:\n", kind="silent"))
